@@ -579,6 +579,7 @@ def main():
             "known_finding_hits": {k: len(v) for k, v in stats["known"].items()} if stats else {},
             "repaired_upstream_lines": stats["repaired_upstream"] if stats else 0,
             "disagreements_checked": stats["lines"] if stats else 0,
+            "programs": max(1, sum(1 for l in lines if l.startswith("# case"))),
             "leanchecker": leanchecker,
             "notes": notes,
             "model_modelled_parts": cfg.get("modelled", ""),
